@@ -32,6 +32,18 @@ def call_method(I, recv, name, argexprs, scope, frame, g, hint, e):
     def arg(i=0):
         return I.deref(I.eval(argexprs[i], scope, frame, g))
 
+    # ---------------- strings (C11 profile)
+    import strprof
+    if strprof.is_str(recv):
+        return strprof.str_method(I, strprof.as_str(recv), name, argexprs, scope, frame, g, hint, e)
+    if isinstance(recv, tuple) and len(recv) == 2 and recv[0] == "numstr":
+        if name == "len":
+            return strprof.digits(recv[1])
+        raise Unsupported("method %s on a formatted number" % name)
+    if isinstance(recv, IterV) and name in ("scan", "enumerate", "skip_while", "take_while", "last", "max"):
+        r = strprof.iter_extra(I, recv, name, argexprs, scope, frame, g, hint, e)
+        if r is not NotImplemented:
+            return r
     # ---------------- universal
     if name in ("into", "deref_mut", "deref", "as_ref", "as_mut", "borrow", "borrow_mut") and not argexprs:
         return recv
@@ -51,6 +63,8 @@ def call_method(I, recv, name, argexprs, scope, frame, g, hint, e):
             return int_bin(ADD, recv, a)
         if name in ("try_into",):
             return OptV(T, recv)
+        if name == "to_string":
+            return ("numstr", recv)
         if name == "unwrap":
             return recv
         raise Unsupported("integer method " + name)
@@ -205,6 +219,11 @@ def call_method(I, recv, name, argexprs, scope, frame, g, hint, e):
             return mkbool(recv.is_empty())
         if name == "len":
             return recv.length()
+        if name == "join" and isinstance(recv, VecL):
+            sep = arg()
+            if not (isinstance(sep, tuple) and sep[0] == "str"):
+                raise Unsupported("join with a non-literal separator")
+            return strprof.join(I, g, I.vec_items(recv, g), sep[1], getattr(I, "str_cap", 8))
         if name == "pop_front" and isinstance(recv, VecL):
             # queue semantics: first live entry is removed
             seen = F
